@@ -54,6 +54,20 @@ def build_equilibrium(cfg):
                                     wall=wall, mirror=cfg.get("mirror", False), psi_sign=cfg.get("psi_sign", 1.0),
                                     nR=cfg.get("nR", 65), nZ=cfg.get("nZ", 65), psi1d_rmax=cfg.get("psi1d_rmax"), psi_scale=cfg.get("psi_scale", 1.0))
         return eq, opts, arrays
+    if fam == "torpex":
+        # the isolated X-point of TORPEX: the shipped coil set (examples/torpex-xpoint), sizes and options from the configuration
+        from hypnotoad.cases import torpex
+
+        with E.quiet():
+            eqo, mo = torpex.parseInput(os.path.join(os.environ.get("VERIF_REPO", "/repo"), "examples/torpex-xpoint/%s" % cfg.get("yaml", "torpex-coils.yaml")))
+            for k in list(mo):
+                if k.startswith(("nx_", "ny_")) or k == "y_boundary_guards":
+                    del mo[k]
+            mo.update(opts)
+            eq = torpex.TORPEXMagneticField(eqo, mo)
+            mo.update(eq.user_options)
+            eq.makeRegions()
+        return eq, mo, None
     raise ValueError("unknown family %r" % fam)
 
 
